@@ -3,6 +3,7 @@ package main
 import (
 	"fmt"
 	"go/ast"
+	"go/constant"
 	"go/parser"
 	"go/token"
 	"go/types"
@@ -99,7 +100,11 @@ func (r *patReader) fromExpr(e ast.Expr) *px {
 			return &px{k: "arrvar", s: strings.TrimPrefix(id.Name, "VAR_"), subs: []*px{p}}
 		}
 		if lit, ok := e.Len.(*ast.BasicLit); ok && lit.Kind == token.INT {
-			return &px{k: "arr", s: lit.Value, subs: []*px{p}}
+			// the length the literal denotes in Go (010 is 8, 0x10 is 16, 1_0 is 10), in decimal
+			v := constant.MakeFromLiteral(lit.Value, token.INT, 0)
+			if n, exact := constant.Int64Val(v); exact && v.Kind() == constant.Int {
+				return &px{k: "arr", s: fmt.Sprint(n), subs: []*px{p}}
+			}
 		}
 	case *ast.MapType:
 		k, v := r.fromExpr(e.Key), r.fromExpr(e.Value)
